@@ -48,6 +48,9 @@ func (h HelperContext) BlockWith(hc hctx.Context) (string, error) {
 	if h.block == nil {
 		return "", fmt.Errorf("no block defined")
 	}
+	if hc == nil {
+		return "", fmt.Errorf("no context to run the block with")
+	}
 
 	// The block is evaluated by an evaluator of its own: a stored block
 	// (contentFor) is rendered again by later executions, possibly by
